@@ -657,6 +657,16 @@ def seq_method(interp, recv, name, args, kwargs):
         ctx().assume(z3.Length(r.term) == n)
         ctx().assume(z3.ForAll([i], z3.Implies(z3.And(i >= 0, i < n), r.term[i] == m)))
         return r
+    if name == "strip" and not args and kind == "bytes":
+        axiom("bytes.strip(): the slice between the first and the last byte that is not ASCII whitespace (9-13, 32)")
+        c = ctx()
+        a, b, q = z3.Int(c.fresh_name("strip_a")), z3.Int(c.fresh_name("strip_b")), z3.Int(c.fresh_name("q"))
+        ws = lambda e: z3.Or(z3.And(e >= 9, e <= 13), e == 32)
+        c.assume(z3.And(0 <= a, a <= b, b <= n))
+        c.assume(z3.ForAll([q], z3.Implies(z3.And(q >= 0, q < a), ws(t[q]))))
+        c.assume(z3.ForAll([q], z3.Implies(z3.And(q >= b, q < n), ws(t[q]))))
+        c.assume(z3.Or(a == b, z3.And(z3.Not(ws(t[a])), z3.Not(ws(t[b - 1])))))
+        return core._seq_value(z3.SubSeq(t, a, b - a), kind)
     if name == "count" and len(args) == 1:
         raise Unsupported("count on symbolic sequence")
     raise Unsupported("method %s.%s on symbolic value" % (kind, name))
